@@ -472,8 +472,9 @@ class EllipseGeometry:
         return radius, angle
 
     def _to_polar_vectorized(self, x, y):
-        x1 = np.atleast_2d(x) - self.x0
-        y1 = np.atleast_2d(y) - self.y0
+        # (float arrays also for integer coordinates and an integer center)
+        x1 = np.atleast_2d(x) - float(self.x0)
+        y1 = np.atleast_2d(y) - float(self.y0)
 
         radius = x1**2 + y1**2
         angle = np.ones(radius.shape)
